@@ -98,6 +98,19 @@ func encodeAllWays(r *core.Run, site string, cs any, rng *rand.Rand, rev int, in
 		r.Violation("bytes-depend-on-buffer:"+site, fmt.Sprintf("bytes after a %d-byte prefix differ from bytes into an empty buffer (first diff at %d of %d)", pl, firstDiff(b2.Buf[pl:], canon), len(canon)), cs)
 		return canon, false
 	}
+	// a used buffer: reset to length 0 (or to a short prefix) with the previous contents still in
+	// its spare capacity, as the client's buffer is between packets
+	for _, keep := range []int{0, 3} {
+		dirty := make([]byte, len(canon)+64+keep)
+		for i := range dirty {
+			dirty[i] = 0xA5 ^ byte(i)
+		}
+		bd := proto.Buffer{Buf: dirty[:keep]}
+		if err := blk.EncodeBlock(&bd, rev, input); err != nil || len(bd.Buf) < keep || !bytes.Equal(bd.Buf[keep:], canon) {
+			r.Violation("bytes-depend-on-buffer:used-buffer:"+site, fmt.Sprintf("encoding into a reset buffer whose spare capacity holds old bytes differs from encoding into a fresh one (err=%v, first diff at %d of %d)", err, firstDiff(bd.Buf[min(keep, len(bd.Buf)):], canon), len(canon)), cs)
+			return canon, false
+		}
+	}
 	// raw block + info
 	var b3 proto.Buffer
 	if proto.FeatureBlockInfo.In(rev) {
